@@ -80,6 +80,9 @@ type Package struct {
 
 	once   sync.Once
 	byName map[string]reflect.Type
+
+	mu          sync.Mutex
+	constrained map[reflect.Type]bool
 }
 
 func (p *Package) Type(name string) reflect.Type {
